@@ -43,10 +43,6 @@ def check(case):
             if not finite(a):
                 return None
             r = flint(a)
-            if isinstance(a, int) and abs(a) > 2**53 and int(float(a)) != a if abs(a) < 2**1023 else False:
-                if r != a:
-                    return ("flint-bigint", f"flint({a}) = {r}: not numerically equal (int not representable as a double)")
-                return None
             if Fraction(r) != Fraction(a):
                 return ("flint-value", f"flint({a!r}) = {r!r} is not numerically equal")
             if (Fraction(a).denominator == 1) != isinstance(r, int):
@@ -119,7 +115,7 @@ def main():
     for c in req["cases"]:
         r = check(c)
         if r is not None:
-            fails.append({"key": {"class": r[0]} if r[0] == "flint-bigint" else {"class": r[0], "arg": repr(c["arg"])},
+            fails.append({"key": {"class": r[0], "arg": repr(c["arg"])},
                           "case": c, "what": r[1],
                           "snippet": f"# op {c['op']} with argument {c['arg']!r} (see harness/impl/units.py for the op)"})
     json.dump({"failures": fails}, sys.stdout)
